@@ -362,6 +362,11 @@ func main() {
 			back := genbank.Parse(genbank.Build(s))
 			return back.Meta.References[0].Index == "7", fmt.Sprintf("index read back as %q want 7", back.Meta.References[0].Index)
 		}},
+		{"genbank-source-without-organism", func() (bool, string) {
+			s := genbank.Parse([]byte("LOCUS       x 4 bp DNA linear\nSOURCE      some source\nREFERENCE   1  (bases 1 to 4)\n  AUTHORS   A\nFEATURES             Location/Qualifiers\nORIGIN\n        1 acgt\n//\n"))
+			return s.Meta.Source == "some source" && s.Meta.Organism == "" && len(s.Meta.References) == 1 && s.Meta.References[0].Range == "(bases 1 to 4)",
+				fmt.Sprintf("source %q organism %q want \"some source\" and \"\"", s.Meta.Source, s.Meta.Organism)
+		}},
 	}
 	for _, p := range probes {
 		if only == "" || only == p.name {
